@@ -41,24 +41,47 @@ func (c *fctx) callStmt(o *out, ind int, call *ast.CallExpr, lhs []ast.Expr, isD
 			return
 		}
 	}
+	if fp := calleeFunc(c.info, call); fp != nil && (fp.FullName() == "(*log.Logger).Panicf" || fp.FullName() == "(*log.Logger).Panic") {
+		o.emit(ind, "throw (Err.panic %s)", c.site(call.Pos()))
+		return
+	}
+	if fp := calleeFunc(c.info, call); fp != nil && fp.FullName() == "(net.IPMask).Size" && len(lhs) == 2 {
+		tmp := c.fresh("__s")
+		o.emit(ind, "let %s := Go.maskSize %s", tmp, c.expr(call.Fun.(*ast.SelectorExpr).X))
+		c.define(o, ind, lhs[0], tmp+".1", isDefine)
+		c.define(o, ind, lhs[1], tmp+".2", isDefine)
+		return
+	}
 	f := calleeFunc(c.info, call)
 	if isIgnorable(f) {
 		return
 	}
+	if se, ok := call.Fun.(*ast.SelectorExpr); ok && c.x.kindOf(c.typeOf(se.X)) == kSock {
+		c.sockCall(o, ind, se, call, lhs, isDefine)
+		return
+	}
 	if op, ok := effectOf(f); ok && op != "ArpVerify" {
 		s, res := c.effectCall(op, f, call)
-		if lhs == nil { // result (if any) ignored
+		backs := c.ptrBacks
+		c.ptrBacks = nil
+		total := res.Len() + len(backs)
+		if lhs == nil && len(backs) == 0 { // result (if any) ignored
 			o.emit(ind, "discard (%s)", strings.TrimSuffix(strings.TrimPrefix(s, "(← "), ")"))
 			return
 		}
 		tmp := c.fresh("__e")
 		o.emit(ind, "let %s := %s", tmp, s)
+		for i, b := range backs {
+			if b != nil {
+				o.emit(ind, "%s", b.set(fmt.Sprintf("(%s.getD %s)", proj(tmp, res.Len()+i, total), b.get)))
+			}
+		}
 		if lhs != nil {
 			if len(lhs) != res.Len() {
 				bad("assignment arity at %s", c.site(call.Pos()))
 			}
 			for i, l := range lhs {
-				c.define(o, ind, l, proj(tmp, i, res.Len()), isDefine)
+				c.define(o, ind, l, proj(tmp, i, total), isDefine)
 			}
 		}
 		return
@@ -163,8 +186,16 @@ func (c *fctx) callStmt(o *out, ind int, call *ast.CallExpr, lhs []ast.Expr, isD
 		}
 		for i, l := range lhs {
 			if c.x.kindOf(ci.results.At(i).Type()) == kPtrStruct {
-				if id, ok := l.(*ast.Ident); !ok || id.Name != "_" {
-					bad("pointer result bound to a variable at %s", c.site(call.Pos()))
+				id, ok := l.(*ast.Ident)
+				if !ok {
+					bad("pointer result bound to a non-variable at %s", c.site(call.Pos()))
+				}
+				if id.Name != "_" {
+					v, ok := c.info.ObjectOf(id).(*types.Var)
+					if !ok {
+						bad("pointer result bound to a non-variable at %s", c.site(call.Pos()))
+					}
+					c.optVars[v] = true // nil until proven otherwise: dereferences are checked
 				}
 			}
 			c.define(o, ind, l, proj(tmp, i, total), isDefine)
@@ -251,7 +282,7 @@ func hasReturn(n ast.Node) bool {
 func (c *fctx) names2(vs []*types.Var) (names, typs []string) {
 	for _, v := range vs {
 		names = append(names, c.varName(v))
-		typs = append(typs, c.x.leanType(v.Type(), false))
+		typs = append(typs, c.x.leanType(v.Type(), c.optVars[v]))
 	}
 	return
 }
@@ -364,6 +395,9 @@ func (c *fctx) forStmt(o *out, ind int, t *ast.ForStmt) {
 	c.loopDefs = append(c.loopDefs, sb.String())
 	// call site
 	fuel := c.x.hints[name]
+	if fuel == "param" { // an unbounded `for {}`: the number of iterations is a parameter of the translated function
+		fuel = c.oracle("Nat")
+	}
 	if fuel == "" {
 		var lens []string
 		for _, v := range append(append([]*types.Var{}, state...), captured...) {
@@ -473,4 +507,37 @@ func (c *fctx) rangeStmt(o *out, ind int, t *ast.RangeStmt) {
 	}
 	c.loopDefs = append(c.loopDefs, sb.String())
 	c.afterLoop(o, ind, fmt.Sprintf("%s %s (0 : Int) %s", rec, c.expr(t.X), tuple(snames)), lc)
+}
+
+// sockCall: Read / Write / Close on a socket handle go through the environment.  `n, err := s.Read(buf)` asks the
+// environment for the next frame, at most len(buf) bytes of which are stored into buf.
+func (c *fctx) sockCall(o *out, ind int, se *ast.SelectorExpr, call *ast.CallExpr, lhs []ast.Expr, isDefine bool) {
+	c.fi.effectful = true
+	switch se.Sel.Name {
+	case "Read":
+		if len(lhs) != 2 {
+			bad("socket Read at %s", c.site(call.Pos()))
+		}
+		lv := c.lvalue(call.Args[0])
+		name := c.x.envUse(c.envName(), "SockRead", []string{"Int"}, "(Bytes × GoErr)")
+		tmp := c.fresh("__e")
+		o.emit(ind, "let %s := (← %s (Int.ofNat %s.length))", tmp, name, lv.get)
+		o.emit(ind, "%s", lv.set(fmt.Sprintf("(Go.readInto %s %s.1).1", lv.get, tmp)))
+		c.define(o, ind, lhs[0], fmt.Sprintf("(Go.readInto %s %s.1).2", lv.get, tmp), isDefine)
+		c.define(o, ind, lhs[1], tmp+".2", isDefine)
+	case "Write":
+		name := c.x.envUse(c.envName(), "SockWrite", []string{"Bytes"}, "GoErr")
+		if lhs != nil {
+			bad("socket Write with results at %s", c.site(call.Pos()))
+		}
+		o.emit(ind, "discard (%s %s)", name, c.expr(call.Args[0]))
+	case "Close":
+		name := c.x.envUse(c.envName(), "SockClose", nil, "GoErr")
+		if lhs != nil {
+			bad("socket Close with results at %s", c.site(call.Pos()))
+		}
+		o.emit(ind, "discard (%s)", name)
+	default:
+		bad("socket method %s at %s", se.Sel.Name, c.site(call.Pos()))
+	}
 }
